@@ -1,7 +1,7 @@
 (* C20 — the executable property on the model's own runs: clauses (1)-(6) of Exec.spec_ok are proved
    for every well-formed case; clause (7) (the walk over the step trace deciding for each upgrade
    whether it had to succeed) is the executable counterpart of live_until_recovered / inert_after and
-   is evaluated per run, not proved here. *)
+   is evaluated per run; it is proved of the model in ProofsWalk2.v (spec_ok_on_model). *)
 From Coq Require Import List NArith Bool Arith Lia.
 Import ListNotations.
 Require Import MV.Common.Interleave MV.C20.Model MV.C20.Proofs MV.C20.Proofs2 MV.C20.Exec.
